@@ -125,14 +125,20 @@ def run_case(case, res):
     f = gen.decode(case["f"])
     typed = case["cls"] == "typed"
     t = (TypedTree if typed else Tree)("TITLE")
-    nodes = gen.build(t, f, lambda i: f"n{i}", kind=(lambda i: "k") if typed else None)
+    if case.get("lab") == "eqsib":
+        # siblings holding equal data under distinct ids; renderings stay unique through the id
+        nodes = gen.build(t, f, lambda i: "x", kind=(lambda i: "k") if typed else None, data_id=lambda i: f"n{i}")
+    else:
+        nodes = gen.build(t, f, lambda i: f"n{i}", kind=(lambda i: "k") if typed else None)
     start = case["start"]
     variant = case["variant"]  # node: "self"/"noself"; tree: "default"/"notitle"/"text"
     bad = []
     styles = [(k, list(v)) for k, v in CONNECTORS.items()] + [("custom4", CUSTOM4), ("custom6", CUSTOM6), ("custom4w", CUSTOM4W)]
 
+    eq = case.get("lab") == "eqsib"
+
     def tok(n):
-        return f"<{n.data}>"
+        return f"<{n.data_id}>" if eq else f"<{n.data}>"
 
     if start == -1:
         level0 = None
@@ -171,7 +177,7 @@ def run_case(case, res):
             for sname, style in styles + [("list", None), ("default", None)]:
                 for rk in ("str", "call"):
                     for join in ("\n", ", "):
-                        rep = "<{node.data}>" if rk == "str" else tok
+                        rep = ("<{node.data_id}>" if eq else "<{node.data}>") if rk == "str" else tok
                         kw = {"repr": rep, "join": join}
                         if sname == "list":
                             kw["style"] = "list"
@@ -258,7 +264,7 @@ def run_case(case, res):
                     if a != b:
                         bad.append(f"format_iter != format for style {sname}")
             # default repr
-            if start == -1 and rendered:
+            if start == -1 and rendered and not eq:
                 got = attempt(lambda: t.format(title=False, style="list"))
                 exp = "\n".join((f"{n.kind} → {n.data}" if typed else repr(n.data)) for n in rendered)
                 if got != exp:
@@ -309,6 +315,8 @@ def run_shard(spec, res):
                     for start in [-1] + list(range(n)):
                         for v in variants_for(start):
                             run_case({"cls": cls, "f": gen.code(f), "start": start, "variant": v}, res)
+                            if n >= 2 and n <= 5 and cls == "plain":
+                                run_case({"cls": cls, "f": gen.code(f), "start": start, "variant": v, "lab": "eqsib"}, res)
                 if res.expired():
                     res.count("exhaustive_cut")
                     res.inconc("enumeration cut by time budget")
@@ -320,7 +328,8 @@ def run_shard(spec, res):
             n = gen.size(f)
             for start in [-1] + rng.sample(range(n), min(n, 4)):
                 for v in variants_for(start):
-                    run_case({"cls": rng.choice(["plain", "typed"]), "f": gen.code(f), "start": start, "variant": v}, res)
+                    run_case({"cls": rng.choice(["plain", "typed"]), "f": gen.code(f), "start": start, "variant": v,
+                              "lab": rng.choice(["uniq", "eqsib"])}, res)
             if res.expired():
                 break
 
